@@ -59,6 +59,15 @@ pub struct Case {
     /// the extensions are passed in the dotted spelling (`".html"`), documented as equivalent
     #[serde(default)]
     pub dotted: bool,
+    /// the directory is named through a symbolic link whose target lies at another depth
+    #[serde(default)]
+    pub via_symlink: bool,
+    /// after the application was built, file `i % n` is overwritten in place (what is served are the files as they were at start-up)
+    #[serde(default)]
+    pub rewrite_after_build: Option<u16>,
+    /// the sink accepts at most this many bytes per `write` call
+    #[serde(default)]
+    pub short_write: Option<u16>,
     pub requests: Vec<(String, String)>,
 }
 
@@ -238,7 +247,7 @@ static CASE_NO: std::sync::atomic::AtomicU64 = std::sync::atomic::AtomicU64::new
 impl Property for C19 {
     type Case = Case;
     const ID: &'static str = "C19";
-    const RULE: &'static str = "generated: directory trees on a scratch file system (depth ≤ 3, ≤ 12 files, names over the route alphabet, all 16 supported extensions, empty/text/binary contents, index.html at any level), mount route of depth 0–2, omit_extensions ⊆ {html, txt, json} in the plain or the dotted spelling, file names that themselves end in an extension (`page.html.html`, `index.html.txt`) or end in `index` (`reindex.html`), × up to 30 requests (each file, each directory with and without trailing slash, two trailing slashes, the omitted extension put back or left out, .. / %2e%2e / %2F / // variants, near-miss names, a file outside the directory, other methods). Oracle: model map route → (bytes, MIME) computed from the tree; trees in which two files map to one route must be refused at start-up. Non-trivial tree = has a sub-directory and an index.html or an omitted extension; distinct by (tree, settings, request).";
+    const RULE: &'static str = "generated: directory trees on a scratch file system (depth ≤ 3, ≤ 12 files, names over the route alphabet, all 16 supported extensions, empty/text/binary contents, index.html at any level), mount route of depth 0–2, the directory named directly or through a symbolic link of another depth, one file overwritten after the application was built (20 %), a sink that takes 1–700 bytes per write (20 %), omit_extensions ⊆ {html, txt, json} in the plain or the dotted spelling, file names that themselves end in an extension (`page.html.html`, `index.html.txt`) or end in `index` (`reindex.html`), × up to 30 requests (each file, each directory with and without trailing slash, two trailing slashes, the omitted extension put back or left out, .. / %2e%2e / %2F / // variants, near-miss names, a file outside the directory, other methods). Oracle: model map route → (bytes, MIME) computed from the tree; trees in which two files map to one route must be refused at start-up. Non-trivial tree = has a sub-directory and an index.html or an omitted extension; distinct by (tree, settings, request).";
     const ASSUMPTIONS: &'static [&'static str] = &[
         "entries are regular files with a supported extension, text files are UTF-8, names are valid route segments, directory names carry no dot (documented restrictions of Dir)",
         "with html omitted, `<dir>/index` may or may not answer (the statement names only the directory path)",
@@ -271,18 +280,19 @@ impl Property for C19 {
         let mount = vec(prop_oneof![Just("static".to_string()), Just("a".to_string()), Just("pub".to_string())], 0..=2);
         let omit = prop_oneof![3 => Just(vec![]), 2 => Just(vec![0u8]), 1 => Just(vec![0u8, 1]), 1 => Just(vec![2u8, 0, 1]), 1 => Just(vec![1u8])];
         let recipe = (0u8..12, any::<prop::sample::Index>(), 0u8..8, 0u8..9).prop_map(|(kind, pick, variant, method)| ReqRecipe { kind, pick: pick.index(1 << 16), variant, method });
-        (mount, omit, vec(file, 0..=12), any::<bool>(), vec(recipe, 1..=30), prop::bool::weighted(0.3))
-            .prop_map(|(mount, omit, files, outside, recipes, dotted)| {
+        let extras = (prop::bool::weighted(0.15), prop::option::weighted(0.2, any::<u16>()), prop::option::weighted(0.2, prop_oneof![1u16..=32, 33u16..=700]));
+        (mount, omit, vec(file, 0..=12), any::<bool>(), vec(recipe, 1..=30), prop::bool::weighted(0.3), extras)
+            .prop_map(|(mount, omit, files, outside, recipes, dotted, (via_symlink, rewrite_after_build, short_write))| {
                 // keep the case inside the domain by construction: drop files that clash as paths
                 let mut kept: Vec<FileDesc> = Vec::new();
                 for f in files {
-                    let mut c = Case { mount: mount.clone(), omit: omit.clone(), files: kept.clone(), outside, dotted, requests: vec![] };
+                    let mut c = Case { mount: mount.clone(), omit: omit.clone(), files: kept.clone(), outside, dotted, via_symlink, rewrite_after_build, short_write, requests: vec![] };
                     c.files.push(f.clone());
                     if in_domain_case(&c) {
                         kept.push(f);
                     }
                 }
-                let mut case = Case { mount, omit, files: kept, outside, dotted, requests: vec![] };
+                let mut case = Case { mount, omit, files: kept, outside, dotted, via_symlink, rewrite_after_build, short_write, requests: vec![] };
                 case.requests = recipes.iter().map(|r| concretize(&case, r)).collect();
                 case
             })
@@ -296,9 +306,13 @@ impl Property for C19 {
         }
         let no = CASE_NO.fetch_add(1, std::sync::atomic::Ordering::SeqCst);
         let root = verif_dir().join("target").join("tmp").join("c19").join(format!("p{}", std::process::id())).join(format!("c{no}"));
-        let served = root.join("served");
+        let served = if case.via_symlink { root.join("real").join("deep").join("served") } else { root.join("served") };
         let _ = std::fs::remove_dir_all(&root);
         std::fs::create_dir_all(&served).expect("scratch dir");
+        if case.via_symlink {
+            obs.label("via-symlink");
+            std::os::unix::fs::symlink(std::path::Path::new("real").join("deep").join("served"), root.join("public")).expect("symlink");
+        }
         for f in &case.files {
             let mut d = served.clone();
             for x in &f.dirs {
@@ -312,7 +326,7 @@ impl Property for C19 {
         }
         let omit: Vec<&'static str> = case.omit.iter().map(|i| OMITTABLE[*i as usize % 3]).collect();
         let route = leak(mount_lit(&case.mount));
-        let path = leak(served.to_string_lossy().to_string());
+        let path = leak(if case.via_symlink { root.join("public") } else { served.clone() }.to_string_lossy().to_string());
         let expected = model(case);
         let built = panic::catch(std::panic::AssertUnwindSafe(|| {
             let mut o = Ohkami::new(());
@@ -346,6 +360,20 @@ impl Property for C19 {
             }
         };
         let map = expected.unwrap();
+        // the files change after start-up: what was there at start-up is what is served
+        if let (Some(i), false) = (case.rewrite_after_build, case.files.is_empty()) {
+            obs.label("file-rewritten-after-start-up");
+            let f = &case.files[i as usize % case.files.len()];
+            let mut d = served.clone();
+            for x in &f.dirs {
+                d.push(x);
+            }
+            let _ = std::fs::write(d.join(f.filename()), b"rewritten after the application was built; not what was there at start-up");
+        }
+        if case.short_write.is_some() {
+            obs.label("short-writes")
+        }
+        let limit_before = drive::set_write_limit(case.short_write.map(|n| n as usize));
         let shape = fnv(format!("{:?}{:?}{:?}", case.mount, case.omit, case.files.iter().map(|f| (f.dirs.clone(), f.filename())).collect::<Vec<_>>()).as_bytes());
         let html_omitted = omit.contains(&"html");
         for (method, target) in &case.requests {
@@ -411,6 +439,7 @@ impl Property for C19 {
                 }
             }
         }
+        drive::set_write_limit(limit_before);
         cleanup();
     }
 }
